@@ -1,4 +1,4 @@
-CONSTANTS B = 2  Bufs = {99}  Paths = {"B"}  WithTrunc = TRUE  WithCorrupt = TRUE  FixSeek = FALSE  FixTrunc = FALSE
+CONSTANTS B = 2  Bufs = {99}  Paths = {"B"}  WithTrunc = TRUE  WithCorrupt = TRUE  FixSeek = TRUE  FixData = TRUE  FixHdr = FALSE
 CONSTANT Shapes <- GenShapes
 INIT GenInit
 NEXT GenNext
